@@ -182,8 +182,8 @@ func init() {
 func init() {
 	addMutants(
 		// round-6 seeds on C04
-		mutant{Name: "only-variable-sources-saved-in-a-multiple-assignment", Prop: "C04", File: "interp/run.go", Old: "\tn.exec = func(f *frame) bltn {\n\t\tt := make([]reflect.Value, len(svalue))\n\t\tfor i, s := range svalue {\n\t\t\tif n.child[i].ident == \"_\" {\n\t\t\t\tcontinue\n\t\t\t}\n\t\t\tt[i] = reflect.New(types[i]).Elem()\n\t\t\tt[i].Set(s(f))\n\t\t}\n\t\t// The map and key operands", New: "\ttemp := func(f *frame, i int) reflect.Value {\n\t\tv := svalue[i](f)\n\t\tif k := n.child[sbase+i].kind; k != identExpr && k != indexExpr && k != selectorExpr {\n\t\t\treturn v\n\t\t}\n\t\tt := reflect.New(types[i]).Elem()\n\t\tt.Set(v)\n\t\treturn t\n\t}\n\tn.exec = func(f *frame) bltn {\n\t\tt := make([]reflect.Value, len(svalue))\n\t\tfor i := range svalue {\n\t\t\tif n.child[i].ident == \"_\" {\n\t\t\t\tcontinue\n\t\t\t}\n\t\t\tt[i] = temp(f, i)\n\t\t}\n\t\t// The map and key operands", Rule: "R04.1", Key: "assign/multi-closure#2"},
-		mutant{Name: "benign-sources-saved-through-a-helper", Prop: "C04", File: "interp/run.go", Old: "\tn.exec = func(f *frame) bltn {\n\t\tt := make([]reflect.Value, len(svalue))\n\t\tfor i, s := range svalue {\n\t\t\tif n.child[i].ident == \"_\" {\n\t\t\t\tcontinue\n\t\t\t}\n\t\t\tt[i] = reflect.New(types[i]).Elem()\n\t\t\tt[i].Set(s(f))\n\t\t}\n\t\t// The map and key operands", New: "\ttemp := func(f *frame, i int) reflect.Value {\n\t\tt := reflect.New(types[i]).Elem()\n\t\tt.Set(svalue[i](f))\n\t\treturn t\n\t}\n\tn.exec = func(f *frame) bltn {\n\t\tt := make([]reflect.Value, len(svalue))\n\t\tfor i := range svalue {\n\t\t\tif n.child[i].ident == \"_\" {\n\t\t\t\tcontinue\n\t\t\t}\n\t\t\tt[i] = temp(f, i)\n\t\t}\n\t\t// The map and key operands", Benign: true},
+		mutant{Name: "only-variable-sources-saved-in-a-multiple-assignment", Prop: "C04", File: "interp/run.go", Old: "\tn.exec = func(f *frame) bltn {\n\t\tt := make([]reflect.Value, len(svalue))\n\t\tfor i, s := range svalue {\n\t\t\tif n.child[i].ident == \"_\" {\n\t\t\t\tcontinue\n\t\t\t}\n\t\t\t// The temporary has the type of the value: the static type of the\n\t\t\t// source may be an interface, or the untyped nil.\n\t\t\tv := s(f)\n\t\t\tt[i] = reflect.New(v.Type()).Elem()\n\t\t\tt[i].Set(v)\n\t\t}\n\t\t// The map and key operands", New: "\ttemp := func(f *frame, i int) reflect.Value {\n\t\tv := svalue[i](f)\n\t\tif k := n.child[sbase+i].kind; k != identExpr && k != indexExpr && k != selectorExpr {\n\t\t\treturn v\n\t\t}\n\t\tt := reflect.New(v.Type()).Elem()\n\t\tt.Set(v)\n\t\treturn t\n\t}\n\tn.exec = func(f *frame) bltn {\n\t\tt := make([]reflect.Value, len(svalue))\n\t\tfor i := range svalue {\n\t\t\tif n.child[i].ident == \"_\" {\n\t\t\t\tcontinue\n\t\t\t}\n\t\t\tt[i] = temp(f, i)\n\t\t}\n\t\t// The map and key operands", Rule: "R04.1", Key: "assign/multi-closure#2"},
+		mutant{Name: "benign-sources-saved-through-a-helper", Prop: "C04", File: "interp/run.go", Old: "\tn.exec = func(f *frame) bltn {\n\t\tt := make([]reflect.Value, len(svalue))\n\t\tfor i, s := range svalue {\n\t\t\tif n.child[i].ident == \"_\" {\n\t\t\t\tcontinue\n\t\t\t}\n\t\t\t// The temporary has the type of the value: the static type of the\n\t\t\t// source may be an interface, or the untyped nil.\n\t\t\tv := s(f)\n\t\t\tt[i] = reflect.New(v.Type()).Elem()\n\t\t\tt[i].Set(v)\n\t\t}\n\t\t// The map and key operands", New: "\ttemp := func(f *frame, i int) reflect.Value {\n\t\tv := svalue[i](f)\n\t\tt := reflect.New(v.Type()).Elem()\n\t\tt.Set(v)\n\t\treturn t\n\t}\n\tn.exec = func(f *frame) bltn {\n\t\tt := make([]reflect.Value, len(svalue))\n\t\tfor i := range svalue {\n\t\t\tif n.child[i].ident == \"_\" {\n\t\t\t\tcontinue\n\t\t\t}\n\t\t\tt[i] = temp(f, i)\n\t\t}\n\t\t// The map and key operands", Benign: true},
 		mutant{Name: "zero-value-of-composite-types-memoized", Prop: "C04", File: "interp/type.go", Old: "\tcase arrayT, ptrT, structT, sliceT:\n\t\tv = reflect.New(t.frameType()).Elem()\n", New: "\tcase arrayT, ptrT, structT, sliceT:\n\t\tif z, ok := compositeZero[t]; ok {\n\t\t\tv = z\n\t\t\tbreak\n\t\t}\n\t\tv = reflect.New(t.frameType()).Elem()\n\t\tcompositeZero[t] = v\n", Also: [][3]string{{"interp/type.go", "func (t *itype) zero() (v reflect.Value, err error) {\n", "var compositeZero = map[*itype]reflect.Value{}\n\nfunc (t *itype) zero() (v reflect.Value, err error) {\n"}}, Rule: "R04.17", Key: "arrayLit/closure#1/populates-a-value-of-its-own"},
 		mutant{Name: "reference-kinds-not-copied-by-the-argument-copier", Prop: "C04", File: "interp/run.go", Old: "\tif !v.CanSet() {\n\t\treturn v\n\t}\n\tc := reflect.New(v.Type()).Elem()\n", New: "\tif !v.CanSet() || v.Kind() == reflect.Slice {\n\t\treturn v\n\t}\n\tc := reflect.New(v.Type()).Elem()\n", Rule: "R04.18", Key: "fixArg/settable-argument-copied"},
 	)
@@ -269,5 +269,13 @@ func init() {
 	addMutants(
 		// D93 reverted
 		mutant{Name: "array-literal-always-stored-in-place", Prop: "C04", File: "interp/run.go", Old: "func arrayLit(n *node) {\n\tstore := literalDest(n)\n", New: "func arrayLit(n *node) {\n\tvalue := valueGenerator(n, n.findex)\n\tstore := func(f *frame, v reflect.Value) { value(f).Set(v) }\n", Rule: "R04.19", Key: "arrayLit/closure#1/can-give-the-literal-a-new-variable"},
+	)
+}
+
+func init() {
+	addMutants(
+		// D95, D96 reverted
+		mutant{Name: "append-spreads-by-operand-types", Prop: "C04", File: "interp/run.go", Old: "\tif n.action == aCallSlice {\n\t\t// The last argument is the slice (or string) of the values to append, as in append(s, t...).\n", New: "\tif len(n.child) == 3 && (n.action == aCallSlice || isArray(n.child[2].typ) && n.child[2].typ.elem().id() == n.typ.elem().id()) {\n\t\t// The last argument is the slice (or string) of the values to append, as in append(s, t...).\n", Rule: "R04.21", Key: "_append/slice-form#1/decided-by-the-ellipsis", Benign: false},
+		mutant{Name: "temporaries-typed-from-the-static-source-type", Prop: "C04", File: "interp/run.go", Old: "\t\t\tv := s(f)\n\t\t\tt[i] = reflect.New(v.Type()).Elem()\n\t\t\tt[i].Set(v)\n", New: "\t\t\tv := s(f)\n\t\t\tt[i] = reflect.New(n.child[sbase+i].typ.TypeOf()).Elem()\n\t\t\tt[i].Set(v)\n", Rule: "R04.22", Key: "assign/closure#6/temporary#2/typed-by-the-value"},
 	)
 }
